@@ -12,7 +12,6 @@ import (
 	"os"
 	"reflect"
 	"sort"
-	"strings"
 	"unsafe"
 
 	"github.com/sasha-s/go-deadlock"
@@ -201,6 +200,16 @@ func main() {
 					}
 				}
 			}
+			// keys below the pseudo database "_tome" (objects of a database whose name is unknowable) name nothing
+			tomeKeys := map[string]bool{}
+			for _, c := range hx.SL(cat, "ucolls") {
+				_, ck := util.GetCollectionInfoKeys(conc(c), reader.TomeObject)
+				tomeKeys["coll:"+ck] = true
+				for _, pn := range hx.SL(cat, "uparts") {
+					_, pk := util.GetPartitionInfoKeys(conc(pn), conc(c), reader.TomeObject)
+					tomeKeys["part:"+pk] = true
+				}
+			}
 			extra := []string{}
 			tome := 0
 			for kind, tkey := range map[string]string{"db": util.DroppedDatabaseKey, "coll": util.DroppedCollectionKey, "part": util.DroppedPartitionKey} {
@@ -208,8 +217,8 @@ func main() {
 					if hit[kind+":"+k] {
 						continue
 					}
-					if kind != "db" && strings.HasPrefix(k, reader.TomeObject+"_") {
-						tome++ // objects below a database whose name is unknowable: they name nothing
+					if tomeKeys[kind+":"+k] {
+						tome++
 						continue
 					}
 					extra = append(extra, kind+":"+k)
